@@ -923,14 +923,12 @@ class RTCSctpTransport(AsyncIOEventEmitter):
         chunk_pos = self._sent_queue.index(chunk)
         for pos in range(chunk_pos, -1, -1):
             ochunk = self._sent_queue[pos]
-            ochunk._abandoned = True
-            ochunk._retransmit = False
+            self._abandon_sibling(chunk, ochunk)
             if ochunk.flags & SCTP_DATA_FIRST_FRAG:
                 break
         for pos in range(chunk_pos, len(self._sent_queue)):
             ochunk = self._sent_queue[pos]
-            ochunk._abandoned = True
-            ochunk._retransmit = False
+            self._abandon_sibling(chunk, ochunk)
             if ochunk.flags & SCTP_DATA_LAST_FRAG:
                 break
         else:
@@ -944,6 +942,19 @@ class RTCSctpTransport(AsyncIOEventEmitter):
                     break
 
         return True
+
+    def _abandon_sibling(self, chunk: DataChunk, ochunk: DataChunk) -> None:
+        if (
+            ochunk is not chunk
+            and not ochunk._abandoned
+            and not ochunk._acked
+            and not ochunk._retransmit
+        ):
+            # the fragment is still counted as in flight, but it is about to
+            # leave the sent queue and will never be acknowledged
+            self._flight_size_decrease(ochunk)
+        ochunk._abandoned = True
+        ochunk._retransmit = False
 
     def _mark_received(self, tsn: int) -> bool:
         """
